@@ -1,4 +1,41 @@
+/* stand-ins of contracts_ss_generate.h rendered as harness functions (nondeterministic results within the stated ranges,
+   requirements as assertions): the same behaviours as the contract form, without the per-call instrumentation of
+   --replace-call-with-contract, which made cbmc's symbolic execution of this function take > 40 min */
+#define RXV_STANDINS_AS_FUNCTIONS 1
 #include "sg.c"
 SuperscalarInstruction rxv_null_instruction; const DecoderBuffer* rxv_default_decoder_buffer;
-int g_db_size, g_cur_size, g_last_commit; unsigned g_created;
-void h_generate(void) { SuperscalarProgram* prog; Blake2Generator* gen; g_last_commit = -1; generateSuperscalar(prog, gen); __CPROVER_assert(0, "canary"); }
+int g_db_size, g_cur_size, g_last_commit; unsigned g_created, g_emitted;
+static char null_info_obj, some_info_obj;   /* identities of "the null instruction's info" and "any other info" */
+int nondet_int(void); _Bool nondet_bool(void); const DecoderBuffer* nondet_db(void); const MacroOp* nondet_mop(void);
+static int in_range(int lo, int hi) { int x = nondet_int(); __CPROVER_assume(x >= lo && x <= hi); return x; }
+const DecoderBuffer* rxv_db_fetchNext(const DecoderBuffer* db, int type, int decodeCycle, int mulCount, Blake2Generator* gen) {
+	__CPROVER_assert(decodeCycle >= 0 && decodeCycle < 170, "decode cycle inside the generation window"); g_db_size = in_range(3, 4); return nondet_db(); }
+int rxv_db_size(const DecoderBuffer* db) { return g_db_size; }
+int rxv_db_count(const DecoderBuffer* db, int slot) { __CPROVER_assert(slot >= 0 && slot < g_db_size, "slot index inside the decode buffer"); return in_range(3, 10); }
+int rxv_db_index(const DecoderBuffer* db) { return nondet_int(); }
+int rxv_cur_type(SuperscalarInstruction* c) { return nondet_int(); }
+/* the null instruction (SuperscalarInstruction::Null) has no macro-ops */
+int rxv_cur_size(SuperscalarInstruction* c) { return c->info_ == (const SuperscalarInstructionInfo*)&null_info_obj ? 0 : g_cur_size; }
+void rxv_cur_create(SuperscalarInstruction* c, Blake2Generator* gen, int slotSize, int fetchType, bool isLast, bool isFirst) {
+	__CPROVER_assert(g_last_commit < 170, "spec 6.3: no instruction is created after a macro-op was scheduled at a cycle >= RANDOMX_SUPERSCALAR_LATENCY");
+	__CPROVER_assert(g_emitted < (unsigned)SuperscalarMaxSize, "no instruction is created once the program buffer is full");
+	c->info_ = (const SuperscalarInstructionInfo*)&some_info_obj; g_cur_size = in_range(1, 4); g_created++; }
+const MacroOp* rxv_cur_op(SuperscalarInstruction* c, int index) { __CPROVER_assert(index >= 0 && index < g_cur_size, "macro-op index inside the instruction"); return nondet_mop(); }
+int rxv_cur_srcop(SuperscalarInstruction* c) { return nondet_int(); }
+int rxv_cur_dstop(SuperscalarInstruction* c) { return nondet_int(); }
+int rxv_cur_resultop(SuperscalarInstruction* c) { return nondet_int(); }
+bool rxv_cur_select_src(SuperscalarInstruction* c, int cycle, RegisterInfo* registers, Blake2Generator* gen) { return nondet_bool(); }
+bool rxv_cur_select_dst(SuperscalarInstruction* c, int cycle, bool allowChainedMul, RegisterInfo* registers, Blake2Generator* gen) { return nondet_bool(); }
+int rxv_cur_dst(SuperscalarInstruction* c) { return in_range(0, 7); }
+int rxv_cur_group(SuperscalarInstruction* c) { return nondet_int(); }
+int rxv_cur_grouppar(SuperscalarInstruction* c) { return nondet_int(); }
+void rxv_cur_emit(SuperscalarInstruction* c, Instruction* instr) { g_emitted++; instr->opcode = (uint8_t)nondet_int(); instr->dst = (uint8_t)in_range(0, 7); instr->src = (uint8_t)in_range(0, 7); instr->mod = (uint8_t)nondet_int(); instr->imm32 = (uint32_t)nondet_int(); }
+int rxv_mop_latency(const MacroOp* m) { return in_range(0, 4); }
+int rxv_mop_size(const MacroOp* m) { return in_range(0, 16); }
+int isMultiplication(int type) { return in_range(0, 1); }
+static int sched(int cycle) { int r = nondet_int(); __CPROVER_assume(r == -1 || (r >= cycle && r < CYCLE_MAP_SIZE)); return r; }
+int rxv_schedule_probe(const MacroOp* m, int (*portBusy)[3], int cycle, int depCycle) { return sched(cycle); }
+int rxv_schedule_commit(const MacroOp* m, int (*portBusy)[3], int cycle, int depCycle) { int r = sched(cycle); if (r >= 0) g_last_commit = r; return r; }
+Instruction* rxv_emitted(SuperscalarProgram* prog, int i) { __CPROVER_assert(i >= 0 && i < SuperscalarMaxSize, "emitted instruction index inside the program buffer");
+	Instruction* p = &prog->programBuffer[i]; __CPROVER_assume(p->dst < 8 && p->src < 8); return p; }
+void h_generate(void) { SuperscalarProgram* prog; Blake2Generator* gen; g_last_commit = -1; rxv_null_instruction.info_ = (const SuperscalarInstructionInfo*)&null_info_obj; generateSuperscalar(prog, gen); __CPROVER_assert(0, "canary"); }
